@@ -70,7 +70,7 @@ pub fn check_records(file: &FixedFile, lines: &[Vec<u8>], expected: &[usize]) ->
     let f0 = &l.strs[0];
     let mut by_val = std::collections::HashMap::new();
     for (i, _r) in file.recs.iter().enumerate() {
-        by_val.insert(str_value(0, file.recs[i].serial, f0.cap), i);
+        by_val.insert(str_value_full(0, file.recs[i].serial, f0.cap, file.recs[i].full), i);
     }
     let mut got: Vec<usize> = vec![];
     for (k, line) in lines.iter().enumerate() {
@@ -84,7 +84,7 @@ pub fn check_records(file: &FixedFile, lines: &[Vec<u8>], expected: &[usize]) ->
         got.push(idx);
         let r = &file.recs[idx];
         for (fi, f) in l.strs.iter().enumerate() {
-            let want = str_value(fi, r.serial, f.cap);
+            let want = str_value_full(fi, r.serial, f.cap, r.full);
             let have = quoted_field(&ls, f.name).or_else(|| plain_field(&ls, f.name).map(|s| s.trim_matches('\'').to_string()));
             if have.as_deref() != Some(want.as_str()) {
                 return Err(("field".into(), format!("line #{} record {}: field {} = {:?}, want {:?}; line {:?}", k, idx, f.name, have, want, esc_trunc(line, 300))));
@@ -148,7 +148,7 @@ impl Property for C08 {
         let mut v = vec![];
         for (li, l) in layouts().iter().enumerate() {
             // duplicated time values, one per layout (finding F2 regression)
-            let recs = (0..6).map(|k| FRec { sec: 1_600_000_000 + [0i64, 1, 1, 0, 2, 1][k], usec: 7, null: 0, pid: 100 + k as i32, typ: 6, serial: k as u32 }).collect();
+            let recs = (0..6).map(|k| FRec { sec: 1_600_000_000 + [0i64, 1, 1, 0, 2, 1][k], usec: 7, null: 0, pid: 100 + k as i32, typ: 6, serial: k as u32, full: 0 }).collect();
             v.push((format!("dup-times-{}", l.id), Case { file: FixedFile { layout: li, recs }, codec: Codec::Plain, bs: 65536, win: None }));
         }
         v
